@@ -290,7 +290,10 @@ class Gen:
                 xs.append(f[0])
             elif how == "replace" and f:
                 xs[self.r.randrange(len(xs))] = f[0]
-        return {"op": setter, "on": p[0], "xs": xs}
+        ev = {"op": setter, "on": p[0], "xs": xs}
+        if self.r.random() < 0.2:
+            ev["as_set"] = self.r.choice(["iter", "gen"])  # a one-shot iterable instead of a list
+        return ev
 
     # -- connections ------------------------------------------------------------------
     def _pin_candidates(self):
@@ -601,9 +604,17 @@ class Gen:
             return None
         self.cfg["_lid"] = nid + 1
         kinds = [("shadow", 2 if len(shadows) < 3 else 0), ("passive", 1), ("gc_inside", 1),
-                 ("veto", 2 if self.cfg.get("veto") else 0)]
+                 ("veto", 2 if self.cfg.get("veto") else 0), ("partial", 2)]
         kind = weighted(self.r, kinds)
         ev = {"op": "listener_add", "kind": kind, "id": nid}
+        if kind == "partial":
+            # a listener that overrides a few hooks only (related hooks are the interesting neighbours)
+            groups = [["dictionary_set", "dictionary_delete", "dictionary_pop"], ["wire_connect_pin", "wire_disconnect_pin"],
+                      ["definition_add_child", "definition_remove_child", "instance_reference"],
+                      ["port_add_pin", "port_remove_pin", "cable_add_wire", "cable_remove_wire"]]
+            g = self.r.choice(groups)
+            ev["hooks"] = sorted(set(self.r.sample(g, self.r.randint(1, len(g) - 1)) +
+                                     (self.r.sample(HOOKS, self.r.randint(0, 2)))))
         if kind == "gc_inside":
             ev["every"] = self.r.choice([1, 3, 7, 20])
         if kind == "veto":
